@@ -53,6 +53,10 @@ type c05Case struct {
 	HdrMode    string `json:"hdr_mode,omitempty"`    // fresh | mutated (ONE object refilled per call) | shared (ONE object untouched)
 	PostMutate bool   `json:"post_mutate,omitempty"` // the caller changes its header objects after Encrypt, before MarshalJSON
 	Start      string `json:"start,omitempty"`       // newmessage | withkw
+	// mode "reuse": the caller reuses the buffer it parsed from (c05_reuse.go)
+	BaseMode string `json:"base_mode,omitempty"` // goat | indep: how the message is built
+	ReuseHow string `json:"reuse_how,omitempty"` // overwrite | clear | refill | refill-same-length | untouched
+	Seed2    uint64 `json:"seed2,omitempty"`
 }
 
 var c05PTShapes = []string{"empty", "one", "aligned16", "aligned32", "minus1", "plus1", "large", "incompressible", "compressible"}
@@ -194,6 +198,8 @@ func execC05(c *vf.Ctx, d *vf.Driver, cs c05Case) {
 		execC05Vector(c, d, cs)
 	case "alias":
 		execC05Alias(c, d, cs)
+	case "reuse":
+		execReuse(c, d, cs, "c05")
 	}
 }
 
@@ -1130,6 +1136,12 @@ func runC05(c *vf.Ctx) {
 					}
 				}
 			}
+		}
+	}
+	// reuse stream: the caller reuses the buffer it parsed from; returned buffers do not alias internal state
+	for rep := 0; rep < c.Budget(40, 300); rep++ {
+		for _, how := range c05ReuseHows {
+			jobs = append(jobs, genReuse(r, how))
 		}
 	}
 	jobs = append(zipJobs, jobs...) // the long ones first
